@@ -27,6 +27,30 @@ fn main() {
             Err(f) => println!("K={k} failure {}", f.message()),
         }
     }
+    if std::env::args().nth(2).as_deref() == Some("prefix") {
+        for t in 1..=case.t {
+            let c = case.clone();
+            let r = simulate(&SchedSpec::nopreempt(), move || {
+                let game = c.game.build().unwrap();
+                let mut cfg = SolveCfg::new(c.method, c.params.clone(), t, 0.0, 1, c.sampling_seed);
+                cfg.buggify = false;
+                observed_solve(&game, &cfg)
+            });
+            let lib = r.value.ok().and_then(|o| o.result.ok()).unwrap();
+            let game = case.game.build().unwrap();
+            let tree = cond::compile_for(&case.game, &game).unwrap();
+            let rf = reference(&tree, &RefCfg { method: case.method, params: case.params.documented(), t, thresh: 0.0, seed: case.sampling_seed, tie: cond::tie_policy() });
+            for p in 0..2 {
+                for (i, m) in &lib.profile[p] {
+                    let rm = &rf.profile[p][i];
+                    if m.iter().any(|(a, q)| (q - rm.get(a).copied().unwrap_or(0.0)).abs() > 1e-9) || m.len() != rm.len() {
+                        println!("t={t} p={p} {i}: lib {m:?}\n                ref {rm:?}");
+                    }
+                }
+            }
+            println!("t={t} bounds lib {:?} ref {:?} ill {:?}", lib.bounds, rf.bounds, rf.ill);
+        }
+    }
     let game = case.game.build().unwrap();
     let tree = cond::compile_for(&case.game, &game).unwrap();
     let r = reference(&tree, &RefCfg { method: case.method, params: case.params.documented(), t: case.t, thresh: case.thresh, seed: case.sampling_seed, tie: cond::tie_policy() });
